@@ -18,6 +18,7 @@ func init() {
 			"(replication-under-lock) the synchronous replication sends of a primary mutation (PutEntry / DelEntry to backups and previous owners) are issued while the fragment write lock is held; " +
 			"(single-writer-routing) the functions that apply a client's write/read on the primary copy (putOnCluster, getOnCluster, deleteKey) are called only on the true edge of the owner test (CompareByName/CompareByID of the partition owner with this member), the other edge forwards to the owner; reasoned exceptions are background workers and migration; " +
 			"(single-live-version / lookup-covers-all-tables) shared with C11: at most one live version per store, lookups visit every table. " +
+			"(wipe-decided-under-write-lock) the janitor tests a fragment's emptiness and removes it inside one write-lock region of that fragment; (partition-formula) shared with C13: the key's hash is computed from the whole DMap name and the whole key, and the partition from that hash. " +
 			"NOT decided: the real-time order itself, forwarding during routing-table changes, wall-clock timestamp ties, the janitor/Move hand-over race (DESIGN D20).",
 		Assume: []string{"lock identity is type-level (any dmap.fragment RWMutex)"},
 		Run: func(r *core.Run) {
@@ -35,6 +36,8 @@ func init() {
 			c06CollectedVersionsComplete(r)
 			c03PreviousOwners(r)
 			kvScanIndexRegistration(r)
+			c01WipeDecidedUnderWriteLock(r)
+			c13PartitionFormula(r)
 		},
 	})
 }
